@@ -1123,10 +1123,9 @@ impl MachineState {
                                         if name == atom!("-") && arity == 2 {
                                             break;
                                         } else {
-                                            let err = self.type_error(
-                                                ValidType::Pair,
-                                                list_loc_as_cell!(l),
-                                            );
+                                            // the culprit is the element, not the list cell
+                                            let elem = self.store(self.deref(heap_loc_as_cell!(l)));
+                                            let err = self.type_error(ValidType::Pair, elem);
 
                                             return Err(self.error_form(err, stub_gen()));
                                         }
@@ -1135,10 +1134,8 @@ impl MachineState {
                                         break;
                                     }
                                     _ => {
-                                        let err = self.type_error(
-                                            ValidType::Pair,
-                                            list_loc_as_cell!(l),
-                                        );
+                                        let elem = self.store(self.deref(heap_loc_as_cell!(l)));
+                                        let err = self.type_error(ValidType::Pair, elem);
 
                                         return Err(self.error_form(err, stub_gen()));
                                     }
